@@ -29,8 +29,9 @@ C[PA + 'slice'] = dict(
     requires=[('range', '0 <= start and start <= stop and stop <= len(self._sequence)')],
     bounded_by='proved against its own contract in contracts/annot.py (C11)',
     ensures=[('residues', 'result._sequence == self._sequence[start:stop]'),
-             # A-WHOLE-SLICE: cutting out the whole peptide gives an equal peptide (consequence of the slice contract of C11 and the equality
-             # contract of C20 for annotations whose intervals lie inside the sequence; assumed here, exercised by bounded/C16.py)
+             # A-WHOLE-SLICE: cutting out the whole peptide gives an equal peptide.  PROVED in contracts/wholeslice.py from the slice contract
+             # (C11) and the == contract (C20) for well-formed peptides without an empty interval list; assumed here for every stretch the
+             # search cuts out (a stretch cut through an interval is outside the C11 contract), exercised by bounded/C16.py
              ('whole-range-slice-equals-the-peptide', 'implies(start == 0 and stop == len(self._sequence), result.__eq__(self))')])
 C[PA + 'strip'] = dict(params=dict(self='Annotation', inplace='bool'), returns='Annotation', pure=True, trusted=True,
                        requires=[('copy-mode', 'not inplace')], bounded_by='proved against its own contract in contracts/equality.py (C20)',
